@@ -261,14 +261,20 @@ class UAIReader(object):
         if self.network_type == "BAYES":
             model = BayesianNetwork()
             model.add_nodes_from(self.variables)
-            model.add_edges_from(self.edges)
+            model.add_edges_from(sorted(self.edges))
 
+            parsed = self.grammar.parseString(self.network)
             tabular_cpds = []
-            for child_var, values in self.tables:
+            for function, (child_var, values) in enumerate(self.tables):
                 states = int(self.domain[child_var])
                 values = np.fromiter(values, dtype=float)
                 values = values.reshape(states, values.size // states)
-                parents = list(model.predecessors(child_var))
+                # The parent order has to come from the function's scope (and not
+                # from the graph, whose edge order is arbitrary). UAIWriter writes
+                # the scope as the reversed evidence list followed by the child.
+                scope = parsed["fun_" + str(function)]
+                scope = [scope] if isinstance(scope, int) else list(scope)
+                parents = ["var_" + str(var) for var in scope[-2::-1]]
                 if len(parents) == 0:
                     tabular_cpds.append(TabularCPD(child_var, states, values))
                 else:
